@@ -13,7 +13,8 @@
      {"e":"prog","id":"P/loc","prog":P,"loc":..,"G":..,"G1":..,"P":..,"P2":..,"emitted":bool,"shadow":..,...}
           one emitted DFIR graph (record format of Partition.tla): G/G1 flat graph, P the partitioned
           graph baked into the emitted code, P2 the harness's own partition of G1
-     {"e":"sim","prog":P,"verdict":"ok"|"panic","msg":..}      simulator builder (flow.sim().compiled())
+     {"e":"sim","prog":P,"verdict":"ok"|"panic"|"env","msg":..}   simulator builder (flow.sim().compiled());
+          "env" = cargo's shared build directory was disturbed (tool error, not a verdict)
      {"e":"eof"}
 
    Rules are collected (not fatal) as <<program, rule>> in `viol` and printed at eof.  Rule name
@@ -96,7 +97,8 @@ TGraph ==
 \* --- simulator builder
 TSim ==
     /\ Ev.e = "sim" /\ Known(Ev.prog)
-    /\ bad' = (IF exp[Ev.prog] = "ok"
+    /\ bad' = (IF Ev.verdict = "env" THEN {"TOOL:simulator-build-environment-failure"}    \* cargo, not the program
+               ELSE IF exp[Ev.prog] = "ok"
                THEN Rule(Ev.verdict # "ok", "C41:simulator-builder-failed-on-well-typed-program")
                ELSE Rule(Ev.verdict = "ok", "NOTE:ill-formed-program-accepted-by-simulator-builder"))
     /\ facts' = {}
